@@ -281,6 +281,11 @@ AddRetErr(e) ==
 \* C07: the scenario runs against a misbehaving device (set in the queue's configuration at Reset)
 Adv == "adv" \in DOMAIN cfg /\ cfg.adv
 
+\* the platform maps buffers in place: the caller's memory *is* the shared memory, so what the
+\* device writes is visible before the completion is consumed (the C04 content clause is about
+\* bouncing platforms) - everything else is unchanged
+InPlace == "inplace" \in DOMAIN cfg /\ cfg.inplace
+
 PopOutcome(token) ==
   IF lastUsed = usedIdx THEN "NotReady"
   ELSE IF UsedAt(lastUsed % N).id # token THEN "WrongToken" ELSE "Ok"
@@ -297,7 +302,7 @@ PopCall(token, outdg) ==
           /\ op' = [kind |-> "popwild", err |-> "WrongToken"]
           /\ UNCHANGED held
      ELSE IF o = "Ok"
-     THEN /\ outdg = held[token].outdg      \* C04: nothing appears before the completion is consumed
+     THEN /\ InPlace \/ outdg = held[token].outdg      \* C04: nothing appears before the completion is consumed
           /\ op' = [kind |-> "pop", token |-> token, len |-> UsedAt(lastUsed % N).len,
                     pas |-> held[token].pas, descs |-> held[token].descs,
                     wd |-> IF token \in DOMAIN wrote THEN wrote[token] ELSE outdg]
@@ -323,7 +328,7 @@ StoreUsedEvent(v) ==
 PopRetOk(len, outdg) ==
   /\ op.kind = "pop"
   /\ len = op.len
-  /\ Adv \/ outdg = op.wd                           \* C04: exactly the bytes the device wrote
+  /\ Adv \/ InPlace \/ outdg = op.wd                           \* C04: exactly the bytes the device wrote
   /\ op.pas \cap DOMAIN shared = {}                 \* everything of this chain unshared
   /\ cfg.eventIdx => usedEvent = Inc(lastUsed)      \* C05: re-armed for the next completion
   /\ lastUsed' = Inc(lastUsed)
